@@ -153,10 +153,10 @@ func newSched(rec *recorder, sc *Scenario, tr, ep int) *sched {
 		s.held[h] = true
 	}
 	s.holdUntil = sc.HoldUntil
-	s.holdMax = 400 * time.Millisecond
+	s.holdMax = 3 * time.Second
 	s.ovCap = 8 * time.Second
 	if sc.TimeoutMs > 0 && sc.TimeoutMs < 5000 {
-		s.ovCap = time.Duration(5*sc.TimeoutMs+300) * time.Millisecond
+		s.ovCap = time.Duration(10*sc.TimeoutMs+2000) * time.Millisecond
 	}
 	s.lastAdvance = time.Now()
 	s.lastEvent = time.Now()
